@@ -805,3 +805,99 @@ Theorem C03_bstep_out :
 Proof. exact bstep_out. Qed.
 Print Assumptions C03_bstep_out.
 
+
+Require Import LV.Base LV.VV LV.VVFacts LV.Path LV.PathSpec LV.PathTerm LV.PathDistinct LV.PathApi LV.Prog LV.Objects LV.Exec LV.Atomic LV.Ops LV.Check LV.AtomicFacts LV.AtomicCoherence LV.AtomicCoRR LV.AtomicClosure LV.AtomicBridge LV.NotifyFacts LV.ClockFacts LV.SyncMono LV.AtomicRun.
+
+(* OVER EXECUTIONS OF THE MODEL L (AtomicRun.v): along SyncMono.steps -- arbitrary interleavings of the micro-operations of all threads, scheduling and spawn included -- the invariant of one atomic cell is preserved. Remaining hypotheses, stated in the theorems: the invariant on the first state (the declared atomics start with the all-zero clock, which the invariant's `key >= 1` clause excludes: to be weakened), and AccSide (every access micro-operation on the cell is a machine step: proved by the six _is_step lemmas from `replayed index is a candidate`, `t_rel <= t_caus`, `ring not full`) *)
+(* THE FRAME LEMMA: every micro-operation that is not an access to atomic a (scheduling, park, yield, every operation on other objects and other atomics, fences, spawn, termination: one tactic over all 77 micro-operations) keeps a's stores, count and mutating flag *)
+Theorem C03_exec_micro_akeep :
+  forall (a : nat) (e : exec) (me : nat) (m : micro),
+       track_ok e -> ~ acc_on a m -> akeep a e (ExecFacts.res_exec (exec_micro e me m)).
+Proof. exact exec_micro_akeep. Qed.
+Print Assumptions C03_exec_micro_akeep.
+
+(* the invariant survives ANY change of the clock list that grows pointwise and stays bounded by the owners' own components *)
+Theorem C03_growto_goodS :
+  forall (s : atomic_state) (cs cs' : list vv),
+       GoodS (s, cs) ->
+       length cs' = length cs ->
+       (forall u : nat, vle (clk cs u) (clk cs' u)) ->
+       (forall t : nat, t < length cs' -> t < length (clk cs' t)) ->
+       (forall u t : nat,
+        u < length cs' -> t < length cs' -> vv_get (clk cs' u) t <= vv_get (clk cs' t) t) ->
+       GoodS (s, cs').
+Proof. exact growto_goodS. Qed.
+Print Assumptions C03_growto_goodS.
+
+(* and every micro-operation is such a change (ClockFacts.clock_wf + SyncMono's monotonicity), on the clock list padded with empty clocks for unspawned threads, so spawn is an ordinary growth step *)
+Theorem C03_exec_growto :
+  forall (e e' : exec) (s : atomic_state),
+       clock_wf e' -> cmono e e' -> GoodS (s, pclocks e) -> GoodS (s, pclocks e').
+Proof. exact exec_growto. Qed.
+Print Assumptions C03_exec_growto.
+
+(* hence a non-access micro-operation preserves the invariant of a *)
+Theorem C03_frame_step_goodS :
+  forall (a : nat) (e : exec) (me : nat) (m : micro) (e' : exec) (s : atomic_state),
+       track_ok e ->
+       clock_wf e ->
+       ~ acc_on a m ->
+       exec_micro e me m = MOk e' ->
+       get_atomic e a = Some s ->
+       GoodS (s, pclocks e) ->
+       exists s' : atomic_state, get_atomic e' a = Some s' /\ acore s s' /\ GoodS (s', pclocks e').
+Proof. exact frame_step_goodS. Qed.
+Print Assumptions C03_frame_step_goodS.
+
+(* an access step looks at the accessing thread's clock only: the _is_step lemmas transfer to the padded list *)
+Theorem C03_access_step_padded :
+  forall (e e' : exec) (me : nat) (b : bop) (s s' : atomic_state),
+       access_bop b ->
+       me < MAX_THREADS ->
+       me < length (clocks e) ->
+       bstep (s, clocks e) me b = Some (s', clocks e') ->
+       bstep (s, pclocks e) me b = Some (s', pclocks e').
+Proof. exact access_step_padded. Qed.
+Print Assumptions C03_access_step_padded.
+
+(* one step of the execution model preserves the invariant of a *)
+Theorem C03_step_goodAt :
+  forall (a : nat) (e : exec) (me : nat) (m : micro) (e1 : exec),
+       AccSide a ->
+       clock_wf e -> track_ok e -> exec_micro e me m = MOk e1 -> GoodAt a e -> GoodAt a e1.
+Proof. exact step_goodAt. Qed.
+Print Assumptions C03_step_goodAt.
+
+(* along any number of steps *)
+Theorem C03_steps_goodAt :
+  forall a : nat,
+       AccSide a ->
+       forall e e' : exec,
+       steps e e' ->
+       clock_wf e -> track_ok e -> GoodAt a e -> GoodAt a e' /\ clock_wf e' /\ track_ok e'.
+Proof. exact steps_goodAt. Qed.
+Print Assumptions C03_steps_goodAt.
+
+(* RMW atomicity in every state along the steps *)
+Theorem C03_steps_atomicity :
+  forall (a : nat) (e : exec) (s : atomic_state) (r sl sid : nat),
+       GoodAt a e ->
+       get_atomic e a = Some s ->
+       r < at_cnt s ->
+       st_rmw_src (get_store s r) = Some (sl, sid) ->
+       sl < at_cnt s /\
+       vv_lt (mo s sl) (mo s r) = true /\
+       (forall x : nat, x < at_cnt s -> vv_lt (mo s sl) (mo s x) && vv_lt (mo s x) (mo s r) = false).
+Proof. exact steps_atomicity. Qed.
+Print Assumptions C03_steps_atomicity.
+
+(* loom's assert_ne cannot fire along the steps *)
+Theorem C03_steps_never_none :
+  forall (a : nat) (e : exec) (s : atomic_state),
+       GoodAt a e ->
+       get_atomic e a = Some s ->
+       (forall (t : nat) (c : vv) (ly : option nat) (o : ord),
+        match_load_to_stores s t c ly o <> None) /\ match_rmw_to_stores s <> None.
+Proof. exact steps_never_none. Qed.
+Print Assumptions C03_steps_never_none.
+
